@@ -34,8 +34,8 @@ Proof.
 Qed.
 
 (* the slot measure: every one of the TargetOutbound slots is a connection, a request in flight,
-   an armed retry timer, or was given up (address ban / canceled request) *)
-Definition slots (s : cst) : Z := zlen (conns s) + zlen (tasks s) + timers s + bans s + canceled s.
+   an armed retry timer, or a request that was canceled while in flight *)
+Definition slots (s : cst) : Z := zlen (conns s) + zlen (tasks s) + timers s + canceled s.
 
 Record J (s : cst) : Prop := {
   j_slots : slots s = tgt s;
@@ -51,11 +51,7 @@ Lemma spawn_slots s : slots (spawn s) = slots s + 1.
 Proof. unfold slots. cs. rewrite zlen_app, zlen_cons, zlen_nil. lia. Qed.
 
 Lemma failed_to_slots s a : slots (failed_to s a) = slots s + 1.
-Proof.
-  unfold failed_to. destruct (_ >=? _).
-  - unfold slots. cs. lia.
-  - rewrite spawn_slots. unfold slots. cs. lia.
-Qed.
+Proof. unfold failed_to. rewrite spawn_slots. unfold slots. cs. lia. Qed.
 
 Lemma failed_global_slots s : slots (failed_global s) = slots s + 1.
 Proof.
@@ -67,8 +63,10 @@ Qed.
 Lemma failed_to_fields s a :
   tgt (failed_to s a) = tgt s /\ maxf (failed_to s a) = maxf s /\ timers (failed_to s a) = timers s /\
   canceled (failed_to s a) = canceled s /\ conns (failed_to s a) = conns s /\
-  (bans (failed_to s a) = bans s \/ bans (failed_to s a) = bans s + 1).
-Proof. unfold failed_to. destruct (_ >=? _); cs; repeat split; auto. Qed.
+  (bans (failed_to s a) = bans s \/ bans (failed_to s a) = bans s + 1) /\
+  tasks (failed_to s a) = tasks s ++ [(next s + 1, Created)] /\ next (failed_to s a) = next s + 1 /\
+  pend (failed_to s a) = pend s.
+Proof. unfold failed_to. cs. destruct (_ >=? _); repeat split; auto. Qed.
 
 Lemma failed_global_fields s :
   tgt (failed_global s) = tgt s /\ maxf (failed_global s) = maxf s /\ bans (failed_global s) = bans s /\
@@ -78,7 +76,7 @@ Proof. unfold failed_global. destruct (_ >=? _); cs; repeat split; auto. Qed.
 
 Lemma J_failed_to s a : slots s + 1 = tgt s -> 0 <= timers s -> 0 <= bans s -> 0 <= canceled s -> J (failed_to s a).
 Proof.
-  intros H1 H2 H3 H4. destruct (failed_to_fields s a) as [F1 [F2 [F3 [F4 [F5 F6]]]]].
+  intros H1 H2 H3 H4. destruct (failed_to_fields s a) as [F1 [F2 [F3 [F4 [F5 [F6 _]]]]]].
   constructor; rewrite ?failed_to_slots, ?F1, ?F3, ?F4; lia.
 Qed.
 
@@ -170,11 +168,11 @@ Lemma tgt_init T mf : tgt (cinit T mf) = T /\ maxf (cinit T mf) = mf.
 Proof. unfold cinit. destruct (spawn_n_tgt (Z.to_nat T) (mkC T mf 0 [] [] [] 0 [] 0 0 0 0)) as [A B]. cs. auto. Qed.
 
 (* ------------------------------------------------------------------ the theorems *)
-(* every slot is accounted for, after any sequence of events *)
+(* every slot is accounted for, after any sequence of events (an address ban no longer costs one) *)
 Theorem slot_conservation T mf evs :
   0 <= T ->
   let s := crun (cinit T mf) evs in
-  zlen (conns s) + zlen (tasks s) + timers s + bans s + canceled s = T.
+  zlen (conns s) + zlen (tasks s) + timers s + canceled s = T.
 Proof.
   intros HT s. pose proof (J_run _ evs (J_init T mf HT)) as [H _ _ _].
   destruct (tgt_run (cinit T mf) evs) as [A _]. destruct (tgt_init T mf) as [B _].
@@ -189,40 +187,16 @@ Proof.
   pose proof (zlen_nonneg (tasks (crun (cinit T mf) evs))). lia.
 Qed.
 
-(* when nothing is in flight any more and no slot was given up, the target is established *)
-Theorem quiescent_full T mf evs :
-  0 <= T ->
-  let s := crun (cinit T mf) evs in
-  quiescent s -> bans s = 0 -> canceled s = 0 -> zlen (conns s) = T.
-Proof.
-  intros HT s [Q1 Q2] B C. pose proof (slot_conservation T mf evs HT) as H. cbv zeta in H.
-  fold s in H. rewrite Q1, Q2, B, C, zlen_nil in H. lia.
-Qed.
-
-(* as long as the target is not established and no slot was given up, the manager is still working
-   on it: a request is in flight or a retry timer is armed *)
-Theorem still_trying T mf evs :
-  0 <= T ->
-  let s := crun (cinit T mf) evs in
-  zlen (conns s) < T -> bans s = 0 -> canceled s = 0 -> tasks s <> [] \/ 0 < timers s.
-Proof.
-  intros HT s Hlt B C. pose proof (slot_conservation T mf evs HT) as H. cbv zeta in H. fold s in H.
-  destruct (tasks s) as [|t l] eqn:E; [right|left; discriminate].
-  rewrite zlen_nil in H. lia.
-Qed.
-
-(* a request in flight is never stuck: in each stage some event applies to it, and a successful
-   dial of a request that was not canceled adds a connection *)
-Theorem dial_ok_connects s id a :
-  task_stage (tasks s) id = Some (Dialing a) -> zmem id (pend s) = true ->
-  conns (cstep s (DialOk id)) = conns s ++ [(id, a)].
-Proof. intros H1 H2. cbn [cstep]. rewrite H1, H2. reflexivity. Qed.
-
 Lemma task_stage_set l id st st' : task_stage l id = Some st -> task_stage (task_set l id st') id = Some st'.
 Proof.
   induction l as [|[i x] t IH]; cbn [task_stage task_set]; [discriminate|].
   destruct (i =? id) eqn:E; intros H; cbn [task_stage]; rewrite E; [reflexivity|exact (IH H)].
 Qed.
+
+Theorem dial_ok_connects s id a :
+  task_stage (tasks s) id = Some (Dialing a) -> zmem id (pend s) = true ->
+  conns (cstep s (DialOk id)) = conns s ++ [(id, a)].
+Proof. intros H1 H2. cbn [cstep]. rewrite H1, H2. reflexivity. Qed.
 
 (* a request that was not canceled moves on under the event of its stage: Created -> WaitAddr ->
    Dialing a -> connection *)
@@ -241,56 +215,236 @@ Proof.
   - intros a H1 H2. apply dial_ok_connects; assumption.
 Qed.
 
-(* an outbound connection that closes is replaced by a new request - unless the failure counter of
-   its address reaches the threshold, in which case the address is banned and NOTHING replaces it *)
+(* an outbound connection that closes is replaced by a new request - always, also when the failure
+   counter of its address reaches the ban threshold *)
 Theorem replaces_closed T mf evs id a :
   0 <= T ->
   let s := crun (cinit T mf) evs in
   conn_addr (conns s) id = Some a ->
-  (fget (failed s) a + 1) mod 65536 < mf ->
   let s' := cstep s (Disconnect id) in
-  zlen (conns s') = zlen (conns s) - 1 /\ tasks s' = tasks s ++ [(next s + 1, Created)] /\ bans s' = bans s.
+  zlen (conns s') = zlen (conns s) - 1 /\ tasks s' = tasks s ++ [(next s + 1, Created)].
 Proof.
-  intros HT s C F s'. subst s'. cbn [cstep]. rewrite C.
+  intros HT s C s'. subst s'. cbn [cstep]. rewrite C.
   pose proof (J_run _ evs (J_init T mf HT)) as [H1 H2 H3 H4]. fold s in H1, H2, H3, H4.
   pose proof (conn_del_len _ _ _ C) as L. pose proof (zlen_nonneg (tasks s)) as Nt.
   assert (X : (zlen (conn_del (conns s) id) <? tgt s) = true) by (unfold slots in H1; lia).
-  rewrite X. unfold failed_to. cs.
-  destruct (tgt_run (cinit T mf) evs) as [_ M]. destruct (tgt_init T mf) as [_ M2]. fold s in M.
-  assert (Y : ((fget (failed s) a + 1) mod 65536 >=? maxf s) = false) by (rewrite M, M2; lia).
-  rewrite Y. cs. repeat split; try reflexivity; exact L.
+  rewrite X.
+  match goal with |- context [failed_to ?x ?y] => destruct (failed_to_fields x y) as [_ [_ [_ [_ [F5 [_ [F7 _]]]]]]] end.
+  rewrite F5, F7. cs. split; [exact L|reflexivity].
 Qed.
 
-Theorem closed_not_replaced_at_threshold T mf evs id a :
+(* ------------------------------------------------------------------ no cancellation on the server's alphabet *)
+Lemma zmem_cons k x l : zmem k (x :: l) = (k =? x) || zmem k l.
+Proof. reflexivity. Qed.
+Lemma zmem_zadd_same k l : zmem k (zadd k l) = true.
+Proof. unfold zadd. destruct (zmem k l) eqn:E; [exact E|]. rewrite zmem_cons, Z.eqb_refl. reflexivity. Qed.
+Lemma zmem_zadd_mono i k l : zmem i l = true -> zmem i (zadd k l) = true.
+Proof. intros H. unfold zadd. destruct (zmem k l); [exact H|]. rewrite zmem_cons, H. apply orb_true_r. Qed.
+Lemma zmem_zrem_other i k l : i <> k -> zmem i (zrem k l) = zmem i l.
+Proof.
+  intros Hne. induction l as [|x t IH]; [reflexivity|]. cbn [zrem filter].
+  destruct (x =? k) eqn:E; cbn [negb].
+  - apply Z.eqb_eq in E. subst x. rewrite zmem_cons. destruct (i =? k) eqn:E2; [apply Z.eqb_eq in E2; congruence|]. exact IH.
+  - rewrite !zmem_cons. unfold zrem in IH. rewrite IH. reflexivity.
+Qed.
+
+Lemma task_stage_In l id st : task_stage l id = Some st -> In (id, st) l.
+Proof.
+  induction l as [|[i x] t IH]; cbn [task_stage]; [discriminate|].
+  destruct (i =? id) eqn:E; intros H.
+  - apply Z.eqb_eq in E. inversion H. subst. left. reflexivity.
+  - right. exact (IH H).
+Qed.
+Lemma In_task_stage l i st : In (i, st) l -> task_stage l i <> None.
+Proof.
+  induction l as [|[j x] t IH]; cbn [task_stage]; [intros []|].
+  intros [H|H].
+  - inversion H. subst. rewrite Z.eqb_refl. discriminate.
+  - destruct (j =? i); [discriminate|exact (IH H)].
+Qed.
+Lemma task_set_fst l id s' : map fst (task_set l id s') = map fst l.
+Proof.
+  induction l as [|[i x] t IH]; cbn [task_set]; [reflexivity|].
+  destruct (i =? id); cbn [map fst]; [reflexivity|rewrite IH; reflexivity].
+Qed.
+Lemma task_set_In l id s' i st : In (i, st) (task_set l id s') -> (i = id /\ st = s') \/ In (i, st) l.
+Proof.
+  induction l as [|[j x] t IH]; cbn [task_set]; [intros []|].
+  destruct (j =? id) eqn:E.
+  - apply Z.eqb_eq in E. subst j. intros [H|H]; [inversion H; left; auto|right; right; exact H].
+  - intros [H|H]; [right; left; exact H|]. destruct (IH H) as [X|X]; [left; exact X|right; right; exact X].
+Qed.
+Lemma task_del_In l id i st : NoDup (map fst l) -> In (i, st) (task_del l id) -> In (i, st) l /\ i <> id.
+Proof.
+  induction l as [|[j x] t IH]; cbn [task_del]; [intros _ []|].
+  intros Hnd Hin. inversion Hnd as [|y l0 Hn Hd]. subst.
+  destruct (j =? id) eqn:E.
+  - apply Z.eqb_eq in E. subst j. split; [right; exact Hin|].
+    intros X. subst i. apply Hn. apply in_map_iff. exists (id, st). split; [reflexivity|exact Hin].
+  - destruct Hin as [H|H].
+    + inversion H. subst. split; [left; reflexivity|]. apply Z.eqb_neq in E. exact E.
+    + destruct (IH Hd H) as [X1 X2]. split; [right; exact X1|exact X2].
+Qed.
+Lemma task_del_nodup l id : NoDup (map fst l) -> NoDup (map fst (task_del l id)).
+Proof.
+  induction l as [|[j x] t IH]; cbn [task_del]; intros Hnd; [constructor|].
+  inversion Hnd as [|y l0 Hn Hd]. subst.
+  destruct (j =? id); [exact Hd|]. cbn [map fst]. constructor; [|exact (IH Hd)].
+  intros Hin. apply Hn. apply in_map_iff in Hin. destruct Hin as [[i st] [X1 X2]]. cbn in X1. subst i.
+  destruct (task_del_In _ _ _ _ Hd X2) as [X3 _]. apply in_map_iff. exists (j, st). split; [reflexivity|exact X3].
+Qed.
+
+(* task ids are fresh and distinct, every registered request is pending, nothing was canceled *)
+Record P (s : cst) : Prop := {
+  p_le : forall i st, In (i, st) (tasks s) -> i <= next s;
+  p_nd : NoDup (map fst (tasks s));
+  p_pend : forall i st, In (i, st) (tasks s) -> st <> Created -> zmem i (pend s) = true;
+  p_canc : canceled s = 0
+}.
+
+Lemma P_ext s s' : tasks s' = tasks s -> next s' = next s -> pend s' = pend s -> canceled s' = canceled s -> P s -> P s'.
+Proof. intros E1 E2 E3 E4 [A B C D]. constructor; rewrite ?E1, ?E2, ?E3, ?E4; assumption. Qed.
+
+Lemma P_spawn s : P s -> P (spawn s).
+Proof.
+  intros [A B C D]. constructor; cs.
+  - intros i st Hin. apply in_app_or in Hin. destruct Hin as [H|[H|[]]]; [specialize (A _ _ H); lia|inversion H; lia].
+  - rewrite map_app. cbn [map fst].
+    assert (Hn : ~ In (next s + 1) (map fst (tasks s))).
+    { intros Hin. apply in_map_iff in Hin. destruct Hin as [[i st] [X1 X2]]. cbn in X1. subst i. specialize (A _ _ X2). lia. }
+    clear A C. induction (tasks s) as [|[j x] t IH]; cbn [map fst app]; [constructor; [intros []|constructor]|].
+    inversion B as [|y l0 Hn0 Hd]. subst. constructor.
+    + intros Hin. apply in_app_or in Hin. destruct Hin as [H|[H|[]]]; [exact (Hn0 H)|]. apply Hn. left. cbn. congruence.
+    + apply IH; [exact Hd|]. intros H. apply Hn. right. exact H.
+  - intros i st Hin Hst. apply in_app_or in Hin. destruct Hin as [H|[H|[]]]; [exact (C _ _ H Hst)|]. inversion H. congruence.
+  - exact D.
+Qed.
+
+Lemma P_failed_to s a : P s -> P (failed_to s a).
+Proof. intros H. unfold failed_to. apply P_spawn. revert H. apply P_ext; reflexivity. Qed.
+
+Lemma P_failed_global s : P s -> P (failed_global s).
+Proof.
+  intros H. unfold failed_global. destruct (_ >=? _); [|apply P_spawn]; revert H; apply P_ext; reflexivity.
+Qed.
+
+Lemma P_del s id : P s -> P (with_tasks s (task_del (tasks s) id)).
+Proof.
+  intros [A B C D]. constructor; cs.
+  - intros i st Hin. destruct (task_del_In _ _ _ _ B Hin) as [X _]. exact (A _ _ X).
+  - apply task_del_nodup. exact B.
+  - intros i st Hin Hst. destruct (task_del_In _ _ _ _ B Hin) as [X _]. exact (C _ _ X Hst).
+  - exact D.
+Qed.
+
+Lemma P_step s e :
+  P s -> match e with Disconnect id => task_stage (tasks s) id = None | _ => True end -> P (cstep s e).
+Proof.
+  intros HP Hal. pose proof HP as [A B C D].
+  destruct e as [id|id a|id|id|id|id|]; cbn [cstep].
+  - destruct (task_stage (tasks s) id) as [[| |a]|] eqn:T; try exact HP.
+    constructor; cs.
+    + intros i st Hin. destruct (task_set_In _ _ _ _ _ Hin) as [[X1 X2]|X]; [subst; exact (A _ _ (task_stage_In _ _ _ T))|exact (A _ _ X)].
+    + rewrite task_set_fst. exact B.
+    + intros i st Hin Hst. destruct (task_set_In _ _ _ _ _ Hin) as [[X1 X2]|X]; [subst; apply zmem_zadd_same|].
+      apply zmem_zadd_mono. exact (C _ _ X Hst).
+    + exact D.
+  - destruct (task_stage (tasks s) id) as [[| |b]|] eqn:T; try exact HP.
+    rewrite (C _ _ (task_stage_In _ _ _ T)) by discriminate.
+    constructor; cs.
+    + intros i st Hin. destruct (task_set_In _ _ _ _ _ Hin) as [[X1 X2]|X]; [subst; exact (A _ _ (task_stage_In _ _ _ T))|exact (A _ _ X)].
+    + rewrite task_set_fst. exact B.
+    + intros i st Hin Hst. destruct (task_set_In _ _ _ _ _ Hin) as [[X1 X2]|X]; [subst; exact (C _ _ (task_stage_In _ _ _ T) ltac:(discriminate))|exact (C _ _ X Hst)].
+    + exact D.
+  - destruct (task_stage (tasks s) id) as [[| |b]|] eqn:T; try exact HP.
+    rewrite (C _ _ (task_stage_In _ _ _ T)) by discriminate.
+    apply P_failed_global. apply P_del. exact HP.
+  - destruct (task_stage (tasks s) id) as [[| |b]|] eqn:T; try exact HP.
+    rewrite (C _ _ (task_stage_In _ _ _ T)) by discriminate.
+    constructor; cs.
+    + intros i st Hin. destruct (task_del_In _ _ _ _ B Hin) as [X _]. exact (A _ _ X).
+    + apply task_del_nodup. exact B.
+    + intros i st Hin Hst. destruct (task_del_In _ _ _ _ B Hin) as [X Y].
+      rewrite zmem_zrem_other by exact Y. exact (C _ _ X Hst).
+    + exact D.
+  - destruct (task_stage (tasks s) id) as [[| |b]|] eqn:T; try exact HP.
+    rewrite (C _ _ (task_stage_In _ _ _ T)) by discriminate.
+    apply P_failed_to. apply P_del. exact HP.
+  - destruct (conn_addr (conns s) id) as [a|] eqn:Cn.
+    + destruct (_ <? _).
+      * apply P_failed_to. constructor; cs; try assumption.
+        intros i st Hin Hst. apply zmem_zadd_mono. exact (C _ _ Hin Hst).
+      * revert HP. apply P_ext; reflexivity.
+    + destruct (zmem id (pend s)); [|exact HP].
+      constructor; cs; try assumption.
+      intros i st Hin Hst. rewrite zmem_zrem_other; [exact (C _ _ Hin Hst)|].
+      intros X. subst i. exact (In_task_stage _ _ _ Hin Hal).
+  - destruct (timers s >? 0); [|exact HP]. apply P_spawn. revert HP. apply P_ext; reflexivity.
+Qed.
+
+Lemma P_run evs : forall s, P s -> server_alphabet s evs -> P (crun s evs).
+Proof.
+  induction evs as [|e t IH]; intros s HP Hal; [exact HP|].
+  cbn [server_alphabet] in Hal. destruct Hal as [H1 H2].
+  change (crun s (e :: t)) with (crun (cstep s e) t). apply IH; [|exact H2].
+  apply P_step; [exact HP|]. destruct e; auto.
+Qed.
+
+Lemma P_spawn_n n : forall s, P s -> P (spawn_n n s).
+Proof. induction n as [|k IH]; intros s H; [exact H|]. cbn [spawn_n]. apply IH. apply P_spawn. exact H. Qed.
+
+Lemma P_init T mf : P (cinit T mf).
+Proof.
+  unfold cinit. apply P_spawn_n. constructor; cs; try reflexivity; try (intros i st []). constructor.
+Qed.
+
+(* on the server's alphabet no request is ever canceled ... *)
+Theorem no_cancel T mf evs :
+  server_alphabet (cinit T mf) evs -> canceled (crun (cinit T mf) evs) = 0.
+Proof. intros H. exact (p_canc _ (P_run evs _ (P_init T mf) H)). Qed.
+
+(* ... hence: when nothing is in flight any more, the target is established *)
+Theorem quiescent_full T mf evs :
+  0 <= T -> server_alphabet (cinit T mf) evs ->
+  let s := crun (cinit T mf) evs in
+  quiescent s -> zlen (conns s) = T.
+Proof.
+  intros HT Hal s [Q1 Q2]. pose proof (slot_conservation T mf evs HT) as H. cbv zeta in H.
+  fold s in H. pose proof (no_cancel T mf evs Hal) as C. fold s in C.
+  rewrite Q1, Q2, C in H. change (zlen (@nil (Z * stage))) with 0 in H. lia.
+Qed.
+
+(* ... and as long as the target is not established the manager is still working on it: a request is
+   in flight or a retry timer is armed ("keeps asking for addresses and dialling") *)
+Theorem still_trying T mf evs :
+  0 <= T -> server_alphabet (cinit T mf) evs ->
+  let s := crun (cinit T mf) evs in
+  zlen (conns s) < T -> tasks s <> [] \/ 0 < timers s.
+Proof.
+  intros HT Hal s Hlt. pose proof (slot_conservation T mf evs HT) as H. cbv zeta in H. fold s in H.
+  pose proof (no_cancel T mf evs Hal) as C. fold s in C.
+  destruct (tasks s) as [|t l] eqn:E; [right|left; discriminate].
+  change (zlen (@nil (Z * stage))) with 0 in H. lia.
+Qed.
+
+(* for arbitrary callers of the public Disconnect: the same with the canceled requests counted *)
+Theorem quiescent_full_any T mf evs :
   0 <= T ->
   let s := crun (cinit T mf) evs in
-  conn_addr (conns s) id = Some a ->
-  mf <= (fget (failed s) a + 1) mod 65536 ->
-  let s' := cstep s (Disconnect id) in
-  zlen (conns s') = zlen (conns s) - 1 /\ tasks s' = tasks s /\ timers s' = timers s /\ bans s' = bans s + 1.
+  quiescent s -> zlen (conns s) = T - canceled s.
 Proof.
-  intros HT s C F s'. subst s'. cbn [cstep]. rewrite C.
-  pose proof (J_run _ evs (J_init T mf HT)) as [H1 H2 H3 H4]. fold s in H1, H2, H3, H4.
-  pose proof (conn_del_len _ _ _ C) as L. pose proof (zlen_nonneg (tasks s)) as Nt.
-  assert (X : (zlen (conn_del (conns s) id) <? tgt s) = true) by (unfold slots in H1; lia).
-  rewrite X. unfold failed_to. cs.
-  destruct (tgt_run (cinit T mf) evs) as [_ M]. destruct (tgt_init T mf) as [_ M2]. fold s in M.
-  assert (Y : ((fget (failed s) a + 1) mod 65536 >=? maxf s) = true) by (rewrite M, M2; lia).
-  rewrite Y. cs. repeat split; try reflexivity; exact L.
+  intros HT s [Q1 Q2]. pose proof (slot_conservation T mf evs HT) as H. cbv zeta in H.
+  fold s in H. rewrite Q1, Q2 in H. change (zlen (@nil (Z * stage))) with 0 in H. lia.
 Qed.
 
-(* ------------------------------------------------------------------ the defect *)
-(* 25 refusals of address 0 (each by the successor of the previous request), then the other
-   request connects to address 1: nothing in flight, no timer, ONE connection for target 2. *)
+(* ------------------------------------------------------------------ examples *)
+(* History: before fix 7026b86 the script below ended quiescent with ONE connection for target 2
+   (the 25th refusal of address 0 banned it and returned without a successor request); with the
+   repaired code the ban happens and the second connection is established. *)
 Definition refusal_ids : list Z := 1 :: map Z.of_nat (seq 3 24).
 Definition witness : list cev :=
   flat_map (fun id => [Registered id; AddrOk id 0; DialFail id]) refusal_ids
-  ++ [Registered 2; AddrOk 2 1; DialOk 2].
-
-Example witness_facts :
-  let s := crun (cinit 2 25) witness in
-  quiescentb s = true /\ zlen (conns s) = 1 /\ bans s = 1 /\ canceled s = 0 /\ dials s = 26.
-Proof. vm_compute. repeat split. Qed.
+  ++ [Registered 2; AddrOk 2 1; DialOk 2; Registered 27; AddrOk 27 1; DialOk 27].
 
 Lemma quiescentb_ok s : quiescentb s = true -> quiescent s.
 Proof.
@@ -298,23 +452,23 @@ Proof.
   intros H. apply Z.eqb_eq in H. auto.
 Qed.
 
-(* The property statement "keeps dialling until the target number of outbound connections is
-   established" fails: a quiescent state below the target is reachable without any request having
-   been canceled. *)
-Theorem ban_loses_slot_refuted :
-  ~ (forall T mf evs, 0 <= T ->
-       let s := crun (cinit T mf) evs in quiescent s -> canceled s = 0 -> zlen (conns s) = T).
-Proof.
-  intros H. specialize (H 2 25 witness). cbv zeta in H.
-  assert (Q : quiescent (crun (cinit 2 25) witness)) by (apply quiescentb_ok; vm_compute; reflexivity).
-  assert (C : canceled (crun (cinit 2 25) witness) = 0) by (vm_compute; reflexivity).
-  specialize (H ltac:(lia) Q C). vm_compute in H. discriminate H.
-Qed.
+Example witness_facts :
+  let s := crun (cinit 2 25) witness in
+  quiescentb s = true /\ zlen (conns s) = 2 /\ bans s = 1 /\ canceled s = 0 /\ dials s = 27.
+Proof. vm_compute. repeat split. Qed.
 
-(* the same through the script layer that the correspondence check drives *)
+Example witness_alphabet : server_alphabet (cinit 2 25) (witness ++ [Disconnect 2; Registered 28]).
+Proof. vm_compute. repeat split. Qed.
+
 Example witness_script :
   let s := sfinal (sinit 2 25) (flat_map (fun _ => [SG 0; SF 0]) (seq 0 25) ++ [SG 1; SK 1; SG 1; SK 1]) in
-  quiescentb s = true /\ zlen (conns s) = 1 /\ dials s = 26 /\ cm_check 2 (zlen (conns s)) (n_wait s) 0 (bans s) = 2%nat.
+  quiescentb s = true /\ zlen (conns s) = 2 /\ dials s = 27 /\ bans s = 1.
+Proof. vm_compute. repeat split. Qed.
+
+(* a canceled request: target 1, the request is disconnected while it dials, its success is ignored *)
+Example cancel_example :
+  let s := crun (cinit 1 25) [Registered 1; AddrOk 1 0; Disconnect 1; DialOk 1] in
+  quiescentb s = true /\ zlen (conns s) = 0 /\ canceled s = 1.
 Proof. vm_compute. repeat split. Qed.
 
 (* ------------------------------------------------------------------ the script layer stays inside the model *)
@@ -343,7 +497,7 @@ Lemma sstep_run x e : exists evs, core (fst (sstep x e)) = crun (core x) evs.
 Proof.
   assert (G : forall ev, exists evs, settle (cstep (core x) ev) = crun (core x) evs).
   { intros ev. destruct (settle_run (cstep (core x) ev)) as [l E]. exists (ev :: l). rewrite E. reflexivity. }
-  destruct e as [a| |a|a|k|]; cbn [sstep].
+  destruct e as [a| |a|a|k| |]; cbn [sstep].
   - destruct (first_stage _ _); [apply G|exists []; reflexivity].
   - destruct (first_stage _ _); [apply G|exists []; reflexivity].
   - destruct (first_stage _ _); [apply G|exists []; reflexivity].
@@ -351,6 +505,8 @@ Proof.
   - destruct (conns (core x)) as [|c l]; [exists []; reflexivity|].
     destruct (nth_error _ _) as [[id b]|]; [apply G|exists []; reflexivity].
   - destruct (lastdisc x); [apply G|exists []; reflexivity].
+  - destruct (tgt (core x) =? 1); [|exists []; reflexivity].
+    destruct (tasks (core x)) as [|[id st] [|t2 l]]; [exists []; reflexivity|apply G|exists []; reflexivity].
 Qed.
 
 (* every state the correspondence check visits is a state of the model the theorems speak about *)
